@@ -107,9 +107,8 @@ public:
 	{
 		if(this->length() != s.length())
 			return false;
-		Enumerator e1 = this->all(), e2 = s.all();
-		for(; e1; ++e1, ++e2)
-			if(*e1 != *e2) return false;
+		for(Enumerator e1 = this->all(); e1; ++e1)
+			if(!s.contains(*e1)) return false;
 		return true;
 	}
 	/**
